@@ -1704,8 +1704,9 @@ class Engine:
         raise OutOfReach(f"{self.c.key}: `in` on {cont.k}")
 
     def ev_Dict(self, n):
-        for v_ in n.values:
-            self.ev(v_)
+        vals = [self.ev(v_) for v_ in n.values]
+        if all(isinstance(k, ast.Constant) and isinstance(k.value, (str, int)) for k in n.keys):
+            return V("dictv", tuple((k.value, v_) for k, v_ in zip(n.keys, vals)))       # small dict with literal keys: concrete map
         return V("opaque", z3.Const(fresh_name("dict"), opaque_sort("Dict")), "Dict")
 
     def ev_Set(self, n):
@@ -1746,6 +1747,12 @@ class Engine:
                 return mk_tuple(base.t[lo:hi])
             raise OutOfReach(f"slice of {base.k}")
         idx = self.ev(sl)
+        if base.k == "dictv":
+            key = self._const_key(idx)
+            for k_, v_ in base.t:
+                if k_ == key:
+                    return v_
+            raise PyRaise("KeyError")
         if base.k == "tuple":
             i = z3.simplify(self.as_int(idx))
             if z3.is_bv_value(i):
@@ -1818,8 +1825,28 @@ class Engine:
             raise OutOfReach("symbolic tuple slice")
         return i.as_long()
 
+    def _const_key(self, idx: V):
+        if idx.k == "str":
+            sv = z3.simplify(idx.t)
+            if z3.is_string_value(sv):
+                return sv.as_string()
+        if idx.k == "int":
+            iv = z3.simplify(idx.t)
+            if z3.is_int_value(iv):
+                return iv.as_long()
+            if z3.is_bv_value(iv):
+                return iv.as_signed_long()
+        if idx.k == "py":
+            return idx.t
+        raise OutOfReach("symbolic key into a concrete dict")
+
     def subscript_store(self, t, v):
         base = self.ev(t.value)
+        if base.k == "dictv":
+            key = self._const_key(self.ev(t.slice))
+            items = [(k_, v_) for k_, v_ in base.t if k_ != key] + [(key, v)]
+            self.store_back(t.value, V("dictv", tuple(items)))
+            return
         if base.k in ("obj", "opaque"):
             # ghost log of the store (key, value): postconditions may use ncalls('store:<target>') / called_with
             try:
@@ -2492,6 +2519,8 @@ class Engine:
         import inspect
         import struct as _struct
         o = recv.t
+        if isinstance(o, dict) and meth in ("items", "keys", "values") and not n.args:
+            return V("py", tuple(getattr(o, meth)()))
         if isinstance(o, _struct.Struct):
             if meth == "pack":
                 return self.struct_pack(o.format, [self.ev(a) for a in n.args])
